@@ -161,7 +161,9 @@ func VDisc(G, T int) {
 	if zzv.Choose("step", 2) == 0 {
 		zzv.Cover("disc.update")
 		u1, e1 := vUpdate("u1", []string{"j1", "j3"}, G, T, &next)
+		locks0 := zzv.LockCount()
 		_ = m.translateTargets(u1)
+		zzv.AssertSym("C17.update.single.critical.section", zzv.LockCount()-locks0 == 1)
 		a1, d1 := m.ActiveTargets(), m.DropTargets()
 		for _, j := range []string{"j1", "j2"} {
 			if e, in := e1[j]; in {
@@ -189,7 +191,12 @@ func VDisc(G, T int) {
 		if keep2 {
 			jobs = append(jobs, "j2")
 		}
+		locks0 := zzv.LockCount()
 		_ = m.ApplyConfig(vConfig(jobs...))
+		// a reload reads the current sets and installs the new ones in ONE critical section;
+		// otherwise a discovery update could slip in between and be overwritten (structural
+		// lemma standing in for the interleavings that are not explored)
+		zzv.AssertSym("C17.reload.single.critical.section", zzv.LockCount()-locks0 == 1)
 		a1, d1 := m.ActiveTargets(), m.DropTargets()
 		for i, j := range []string{"j1", "j2"} {
 			keep := keep1
